@@ -122,10 +122,18 @@ Fixpoint span (p : Z -> bool) (s : str) : str * str :=
   | c :: r => if p c then let '(a, b) := span p r in (c :: a, b) else ([], s)
   end.
 
-(* re.findall('TZID=(?P<name>[^:]+):', s): leftmost non-overlapping matches.  At a position
-   that starts with 'TZID=' the greedy [^:]+ takes the whole run of non-colons; it matches iff
-   that run is non-empty and a ':' follows (no shorter run can be followed by ':').  After a
-   match the scan resumes behind the ':' (skip counter). *)
+(* re.findall('(?i)TZID=(?P<name>[^:]+):', s): leftmost non-overlapping matches; the literal part
+   matches in any letter case (ASCII).  At a position that starts with 'TZID=' the greedy [^:]+
+   takes the whole run of non-colons; it matches iff that run is non-empty and a ':' follows (no
+   shorter run can be followed by ':').  After a match the scan resumes behind the ':' (skip
+   counter). *)
+Fixpoint startswith_ci (p s : str) : bool :=
+  match p, s with
+  | [], _ => true
+  | x :: p', y :: s' => (x =? upc y) && startswith_ci p' s'
+  | _ :: _, [] => false
+  end.
+
 Fixpoint tzid_scan (skip : nat) (s : str) : list str :=
   match s with
   | [] => []
@@ -133,7 +141,7 @@ Fixpoint tzid_scan (skip : nat) (s : str) : list str :=
     match skip with
     | S k => tzid_scan k r
     | O =>
-      if startswith s_TZIDeq s then
+      if startswith_ci s_TZIDeq s then
         let '(name, after) := span (fun c => negb (c =? 58)) (skipn 5 s) in
         match name, after with
         | _ :: _, _ :: _ => name :: tzid_scan (4 + List.length name + 1)%nat r
